@@ -39,14 +39,20 @@
                                      false`: a complete frame that does not decode),
                                      srvAbort (closes the connection)
 
-  The server side of a connection is `pending` (queries received whose reply has not
-  been consumed by the client yet, oldest first — these are the replies the server
-  still *owes* on that connection, each labelled with the exchange whose query it
-  answers), `avail` (how many of those replies already sit completely in the client's
-  receive buffer) and `halfRead` (the reader has consumed a proper part of the oldest
-  one: `workerReadPart`, one `Read` inside `io.ReadFull`).  A successful read always
-  consumes the reply to the oldest pending query: that is the FIFO byte stream together
-  with the hypothesis of the property, "a server that sends one reply per query".
+  Every query is written with a per-connection wire id (`nextQid`, `exchangeConn`); a frame
+  whose id differs from the id of the query just written fails the exchange
+  (`errUnexpectedRespID`), so the connection is closed instead of reused.
+
+  The client side of a connection is `pending` (queries written for which no complete frame
+  has been consumed yet, oldest first) and `halfRead` (the reader has consumed a proper part
+  of a frame: `workerReadPart`, one `Read` inside `io.ReadFull`).  The server side is `owed`
+  (queries received and not answered yet, with their wire ids), `inbuf` (complete frames
+  sent and not consumed yet — the FIFO byte stream) and `sentLog` (every frame ever sent).
+  The server answers the oldest owed query (`srvReply`, the frame carries the wire id of
+  that query and is labelled with the exchange it answers), may send any earlier frame
+  again (`srvDup`: duplicated / extra frames), and — only in the adversarial variant
+  `stepCoreG _ true` — may send arbitrary frames with arbitrary ids and contents
+  (`srvStray`: a lying server).  A read consumes the oldest frame of `inbuf`.
 
   Observable events are appended to `hist`; the specification (`spec`, below) is a
   monitor over that history only and is written from the text of the property.
@@ -74,14 +80,22 @@ inductive Worker where
   | hold (e : Nat)
   /-- worker of attempt `att` of exchange `e` before / in `c.c.Write` -/
   | write (e att : Nat)
-  /-- … in `ReadMsgFromTCP` -/
-  | read (e att : Nat)
+  /-- … in `ReadMsgFromTCP`; `qid` = the wire id the query was written with -/
+  | read (e att qid : Nat)
   /-- … before `resChan <- res` -/
   | post (e att : Nat) (r : Res)
   /-- in `releaseConn` before `rc.close()` / `rc.enterIdle()` (`ok = (err == nil)`) -/
   | relA (ok : Bool)
   /-- in `releaseConn` before `t.m.Lock()` -/
   | relB (ok : Bool)
+  deriving DecidableEq, Repr
+
+/-- a complete frame on the wire: its DNS id, the exchange whose query it answers (what the
+    scripted server's nonce identifies), and whether it decodes -/
+structure Frame where
+  id : Nat
+  q : Nat
+  good : Bool
   deriving DecidableEq, Repr
 
 structure Conn where
@@ -94,16 +108,23 @@ structure Conn where
   netClosed : Bool
   /-- the server closed its end -/
   peerClosed : Bool
-  /-- queries written to the connection whose reply was not consumed yet (oldest first) -/
+  /-- queries written to the connection for which no complete frame was consumed yet -/
   pending : List Nat
-  /-- replies already sent by the server (`true`: decodes), answering `pending` in order -/
-  avail : List Bool
-  /-- the reader has consumed a proper part of the reply to the oldest pending query -/
+  /-- `reusableConn.nextQid` (a `uint16` in Go; wrap-around after 65536 queries on one
+      connection is outside the model) -/
+  nextQid : Nat
+  /-- server: queries received and not answered yet, with their wire ids -/
+  owed : List (Nat × Nat)
+  /-- complete frames sent by the server and not consumed by the client yet -/
+  inbuf : List Frame
+  /-- every frame the server sent on this connection -/
+  sentLog : List Frame
+  /-- the reader has consumed a proper part of a frame -/
   halfRead : Bool
   worker : Option Worker
   deriving Repr
 
-def Conn.fresh : Conn := ⟨false, false, false, false, [], [], false, none⟩
+def Conn.fresh : Conn := ⟨false, false, false, false, [], 0, [], [], [], false, none⟩
 
 inductive CPhase where
   | fresh
@@ -151,12 +172,13 @@ inductive Event where
   | dial (c : Nat)
   /-- connection `c` was handed to (the worker of) exchange `q` -/
   | use (c q : Nat)
-  /-- the server received query `q` on `c` -/
-  | wr (c q : Nat)
-  /-- the client consumed the complete (decodable) reply to query `q` from `c` -/
-  | rd (c q : Nat)
-  /-- the client consumed a complete frame (the reply to `q`) that does not decode -/
-  | bad (c q : Nat)
+  /-- the server received query `q` on `c`, carrying wire id `i` -/
+  | wr (c q i : Nat)
+  /-- the client consumed from `c` a complete decodable frame with wire id `i` that answers
+      query `q` -/
+  | rd (c q i : Nat)
+  /-- the client consumed a complete frame that does not decode -/
+  | bad (c : Nat)
   /-- a `Write`/`Read` of the client on `c` failed -/
   | err (c : Nat)
   /-- the client closed `c` -/
@@ -215,6 +237,10 @@ inductive Act where
   | idleTimer (c : Nat)
   | tClose
   | srvReply (c : Nat) (good : Bool)
+  /-- the server sends the `k`-th frame it ever sent on `c` once more -/
+  | srvDup (c k : Nat)
+  /-- (adversarial variant only) the server sends an arbitrary frame -/
+  | srvStray (c : Nat) (f : Frame)
   | srvAbort (c : Nat)
   deriving Repr
 
@@ -251,8 +277,9 @@ def beforeExitIdle : Option Worker → Bool
   | _ => false
 
 /-- One atomic step (of a transport that has not panicked). `racy = true` drops assumption A1
-    (the idle timer of a connection cannot fire before the dial goroutine's `exitIdle`). -/
-def stepCoreG (racy : Bool) (s : State) (a : Act) : State :=
+    (the idle timer of a connection cannot fire before the dial goroutine's `exitIdle`);
+    `adv = true` lets the server send arbitrary frames (`srvStray`). -/
+def stepCoreG (racy adv : Bool) (s : State) (a : Act) : State :=
   match a with
   | .start e =>
     match (s.caller e).phase with
@@ -349,37 +376,44 @@ def stepCoreG (racy : Bool) (s : State) (a : Act) : State :=
     let k := s.conn c
     match k.worker with
     | some (.write e a) =>
+      -- qid := c.nextQid; c.nextQid++; the id goes into the worker's own copy of the payload
+      let qid := k.nextQid
       if k.netClosed || k.peerClosed || fail then
-        (s.setConn c { k with worker := some (.post e a .err) }).emit (.err c)
+        (s.setConn c { k with nextQid := qid + 1, worker := some (.post e a .err) }).emit (.err c)
       else
-        (s.setConn c { k with pending := k.pending ++ [e], worker := some (.read e a) }).emit (.wr c e)
+        (s.setConn c { k with nextQid := qid + 1, pending := k.pending ++ [e], owed := k.owed ++ [(e, qid)],
+                              worker := some (.read e a qid) }).emit (.wr c e qid)
     | _ => s
   | .workerReadPart c =>
     -- a Read inside io.ReadFull returns a proper part of the reply
     let k := s.conn c
     match k.worker with
-    | some (.read _ _) =>
+    | some (.read _ _ _) =>
       if k.netClosed || k.pending.isEmpty then s else s.setConn c { k with halfRead := true }
     | _ => s
   | .workerReadOk c =>
+    -- ReadMsgFromTCP consumes the next complete frame; then the id check
     let k := s.conn c
     match k.worker with
-    | some (.read e a) =>
+    | some (.read e a qid) =>
       if k.netClosed then s else
-      match k.pending, k.avail with
-      | q :: ps, g :: gs =>
-        if g then
-          (s.setConn c { k with pending := ps, avail := gs, halfRead := false,
-                                worker := some (.post e a (.ok q)) }).emit (.rd c q)
+      match k.inbuf with
+      | f :: fs =>
+        let k' := { k with pending := k.pending.tail, inbuf := fs, halfRead := false }
+        if !f.good then
+          (s.setConn c { k' with worker := some (.post e a .err) }).emit (.bad c)
+        else if f.id = qid then
+          -- r.Header.ID == qid; the caller's id is restored
+          (s.setConn c { k' with worker := some (.post e a (.ok f.q)) }).emit (.rd c f.q f.id)
         else
-          (s.setConn c { k with pending := ps, avail := gs, halfRead := false,
-                                worker := some (.post e a .err) }).emit (.bad c q)
-      | _, _ => s
+          -- errUnexpectedRespID
+          (s.setConn c { k' with worker := some (.post e a .err) }).emit (.rd c f.q f.id)
+      | [] => s
     | _ => s
   | .workerReadErr c =>
     let k := s.conn c
     match k.worker with
-    | some (.read e a) => (s.setConn c { k with worker := some (.post e a .err) }).emit (.err c)
+    | some (.read e a _) => (s.setConn c { k with worker := some (.post e a .err) }).emit (.err c)
     | _ => s
   | .workerPost c =>
     let k := s.conn c
@@ -425,12 +459,25 @@ def stepCoreG (racy : Bool) (s : State) (a : Act) : State :=
         hist := s.hist ++ .tclose :: (s.all.filter (fun c => !(s.conn c).netClosed)).map Event.cl }
   | .srvReply c good =>
     let k := s.conn c
-    if c < s.nconn ∧ k.avail.length < k.pending.length then s.setConn c { k with avail := k.avail ++ [good] }
+    if c < s.nconn then
+      match k.owed with
+      | (q, i) :: rest =>
+        s.setConn c { k with owed := rest, inbuf := k.inbuf ++ [⟨i, q, good⟩], sentLog := k.sentLog ++ [⟨i, q, good⟩] }
+      | [] => s
     else s
+  | .srvDup c n =>
+    let k := s.conn c
+    if c < s.nconn then
+      match k.sentLog[n]? with
+      | some f => s.setConn c { k with inbuf := k.inbuf ++ [f] }
+      | none => s
+    else s
+  | .srvStray c f =>
+    if adv && decide (c < s.nconn) then s.setConn c { s.conn c with inbuf := (s.conn c).inbuf ++ [f] } else s
   | .srvAbort c =>
     if c < s.nconn then s.setConn c { s.conn c with peerClosed := true } else s
 
-def stepCore (s : State) (a : Act) : State := stepCoreG false s a
+def stepCore (s : State) (a : Act) : State := stepCoreG false false s a
 
 /-- One atomic step; after a panic nothing moves any more. -/
 def step (s : State) (a : Act) : State :=
@@ -440,9 +487,15 @@ def exec (s : State) (acts : List Act) : State := acts.foldl step s
 
 /-- the same without assumption A1 -/
 def stepRacy (s : State) (a : Act) : State :=
-  if s.fault.isSome then s else stepCoreG true s a
+  if s.fault.isSome then s else stepCoreG true false s a
 
 def execRacy (s : State) (acts : List Act) : State := acts.foldl stepRacy s
+
+/-- the same against a server that may send arbitrary frames -/
+def stepAdv (s : State) (a : Act) : State :=
+  if s.fault.isSome then s else stepCoreG false true s a
+
+def execAdv (s : State) (acts : List Act) : State := acts.foldl stepAdv s
 
 /-! ### the specification: a monitor over the observable history
 
@@ -460,22 +513,35 @@ def execRacy (s : State) (acts : List Act) : State := acts.foldl stepRacy s
   * "every exchange that returns a message gets the reply to its own query with its own
     ID" — `ret e (ok q)` needs `q = e` (S3); and the query a worker puts on a connection
     is the query of the exchange the connection was handed to (S6).
+  * (since 31b269e, also against a server that sends extra frames) the message an exchange
+    returns is a frame that one of its workers consumed with the wire id of its own query,
+    and a connection on which a frame with another id was consumed is never used again (S7).
 -/
 
 structure Mon where
+  /-- S1, S2, S4–S7: what the transport guarantees against ANY server -/
   ok : Bool
+  /-- S3: every returned message answers the exchange's own query (needs a server that does
+      not forge frames) -/
+  own : Bool
   /-- queries outstanding on each connection -/
   out : Nat → List Nat
-  /-- an I/O error or an undecodable reply was seen on the connection -/
+  /-- wire id of the last query the server received on the connection -/
+  wid : Nat → Nat
+  /-- an I/O error, an undecodable frame or a frame with a foreign id was seen on the connection -/
   dirty : Nat → Bool
   closed : Nat → Bool
   /-- the exchange the connection was last handed to and whose reply has not been consumed -/
   owner : Nat → Option Nat
   /-- the owner gave up and its reply has not been drained -/
   ab : Nat → Bool
+  /-- contents of the frames that a worker of the exchange consumed with its own wire id -/
+  acc : Nat → List Nat
   tclosed : Bool
 
-def Mon.init : Mon := ⟨true, fun _ => [], fun _ => false, fun _ => false, fun _ => none, fun _ => false, false⟩
+def Mon.init : Mon :=
+  ⟨true, true, fun _ => [], fun _ => 0, fun _ => false, fun _ => false, fun _ => none, fun _ => false,
+   fun _ => [], false⟩
 
 def monStep (m : Mon) (ev : Event) : Mon :=
   match ev with
@@ -484,25 +550,41 @@ def monStep (m : Mon) (ev : Event) : Mon :=
     { m with
       ok := m.ok && (m.out c).isEmpty && !m.dirty c && !m.ab c && (!m.closed c || m.tclosed)
       owner := upd m.owner c (some q) }
-  | .wr c q =>
+  | .wr c q i =>
     { m with
       ok := m.ok && (m.out c).isEmpty && !m.dirty c && (m.owner c == some q)
-      out := upd m.out c (m.out c ++ [q]) }
-  | .rd c _ =>
-    { m with out := upd m.out c (m.out c).tail, owner := upd m.owner c none, ab := upd m.ab c false }
-  | .bad c _ =>
+      out := upd m.out c (m.out c ++ [q])
+      wid := upd m.wid c i }
+  | .rd c q i =>
+    if i = m.wid c then
+      -- the reply to the outstanding query (by its wire id): the connection is drained
+      match m.owner c with
+      | some e =>
+        let l := q :: m.acc e
+        { m with
+          out := upd m.out c (m.out c).tail, owner := upd m.owner c none, ab := upd m.ab c false
+          acc := upd m.acc e l }
+      | none =>
+        { m with out := upd m.out c (m.out c).tail, owner := upd m.owner c none, ab := upd m.ab c false }
+    else
+      -- a frame with a foreign id: the stream is out of step, the connection must not be reused
+      { m with out := upd m.out c (m.out c).tail, dirty := upd m.dirty c true }
+  | .bad c =>
     { m with out := upd m.out c (m.out c).tail, dirty := upd m.dirty c true }
   | .err c => { m with dirty := upd m.dirty c true }
   | .cl c => { m with closed := upd m.closed c true }
   | .tclose => { m with tclosed := true }
-  | .ret e (.ok q) => { m with ok := m.ok && (q == e) }
+  | .ret e (.ok q) => { m with ok := m.ok && (m.acc e).contains q, own := m.own && (q == e) }
   | .ret _ .err => m
   | .ret e .ctx => { m with ab := fun c => m.ab c || (m.owner c == some e) }
 
 def mon (h : List Event) : Mon := h.foldl monStep Mon.init
 
+/-- what holds against any server, even one that sends arbitrary frames -/
+def safe (h : List Event) : Bool := (mon h).ok
+
 /-- The property as a decidable predicate on an observed history. -/
-def spec (h : List Event) : Bool := (mon h).ok
+def spec (h : List Event) : Bool := (mon h).ok && (mon h).own
 
 /-! ### deterministic schedules for the harness scripts
 
@@ -517,6 +599,7 @@ inductive Op where
   | dialOk (e : Nat) | dialErr (e : Nat)
   | write (e : Nat)
   | reply (e : Nat) | replySplit (e : Nat) | replyBad (e : Nat) | replyPartialAbort (e : Nat)
+  | replyTwice (e : Nat) | dupTo (e : Nat) | dupIdle
   | abort (e : Nat) | abortIdle
   | tick | close
   deriving Repr
@@ -548,6 +631,11 @@ def choosePick (s : State) (picks : List Nat) : Option Nat :=
 /-- next internal step, in an order that yields the canonical event order of one harness op
     (…, err, use, close, ret). -/
 def nextInternal (s : State) (nex : Nat) (picks : List Nat) : Option Act :=
+  -- 0. a reader finds a complete frame in the stream
+  match findConn s (fun k => match k.worker with
+      | some (.read ..) => !k.netClosed && !k.inbuf.isEmpty | _ => false) s.nconn 0 with
+  | some c => some (.workerReadOk c)
+  | none =>
   -- 1. resChan <- res
   match findConn s (fun k => match k.worker with | some (.post ..) => true | _ => false) s.nconn 0 with
   | some c => some (.workerPost c)
@@ -614,7 +702,7 @@ def connOfWriter (s : State) (e : Nat) : Option Nat :=
   findConn s (fun k => match k.worker with | some (.write e' _) => e' == e | _ => false) s.nconn 0
 
 def connOfReader (s : State) (e : Nat) : Option Nat :=
-  findConn s (fun k => match k.worker with | some (.read e' _) => e' == e | _ => false) s.nconn 0
+  findConn s (fun k => match k.worker with | some (.read e' _ _) => e' == e | _ => false) s.nconn 0
 
 /-- the gated (and forced) actions of one op -/
 def opActs (s : State) (nex : Nat) (op : Op) : List Act :=
@@ -643,6 +731,19 @@ def opActs (s : State) (nex : Nat) (op : Op) : List Act :=
     match connOfReader s e with
     | some c => [.srvReply c false, .workerReadOk c]
     | none => []
+  | .replyTwice e =>
+    -- the reply, and a second copy of it right behind
+    match connOfReader s e with
+    | some c => [.srvReply c true, .srvDup c (s.conn c).sentLog.length, .workerReadOk c]
+    | none => []
+  | .dupTo e =>
+    -- before answering e's query the server repeats the last frame it sent on that connection
+    match connOfReader s e with
+    | some c => if (s.conn c).sentLog.isEmpty then [] else [.srvDup c ((s.conn c).sentLog.length - 1)]
+    | none => []
+  | .dupIdle =>
+    (connsWhere s (fun k => k.worker.isNone && !k.netClosed && !k.peerClosed && !k.sentLog.isEmpty)).map
+      (fun c => Act.srvDup c ((s.conn c).sentLog.length - 1))
   | .replyPartialAbort e =>
     match connOfReader s e with
     | some c => [.workerReadPart c, .srvAbort c, .workerReadErr c]
@@ -681,9 +782,9 @@ def plan (nex : Nat) (picks : List Nat) (ops : List Op) : List Act :=
 def strOfEvent : Event → String
   | .dial c => s!"D{c}"
   | .use c q => s!"U{c}.{q}"
-  | .wr c q => s!"W{c}.{q}"
-  | .rd c q => s!"R{c}.{q}"
-  | .bad c q => s!"B{c}.{q}"
+  | .wr c q i => s!"W{c}.{q}.{i}"
+  | .rd c q i => s!"R{c}.{q}.{i}"
+  | .bad c => s!"B{c}"
   | .err c => s!"E{c}"
   | .cl c => s!"X{c}"
   | .tclose => "T"
@@ -702,14 +803,23 @@ def nat2 (s : String) : Option (Nat × Nat) :=
     pure (a, b)
   | _ => none
 
+def nat3 (s : String) : Option (Nat × Nat × Nat) :=
+  match s.splitOn "." with
+  | [a, b, c] => do
+    let a ← natOfStr a
+    let b ← natOfStr b
+    let c ← natOfStr c
+    pure (a, b, c)
+  | _ => none
+
 def eventOfStr (t : String) : Option Event :=
   let body := (t.drop 1).toString
   match t.front with
   | 'D' => (natOfStr body).map .dial
   | 'U' => (nat2 body).map (fun p => .use p.1 p.2)
-  | 'W' => (nat2 body).map (fun p => .wr p.1 p.2)
-  | 'R' => (nat2 body).map (fun p => .rd p.1 p.2)
-  | 'B' => (nat2 body).map (fun p => .bad p.1 p.2)
+  | 'W' => (nat3 body).map (fun p => .wr p.1 p.2.1 p.2.2)
+  | 'R' => (nat3 body).map (fun p => .rd p.1 p.2.1 p.2.2)
+  | 'B' => (natOfStr body).map .bad
   | 'E' => (natOfStr body).map .err
   | 'X' => (natOfStr body).map .cl
   | 'T' => if body == "" then some .tclose else none
@@ -727,6 +837,7 @@ def opOfStr (t : String) : Option Op :=
   if t == "t" then some .tick
   else if t == "C" then some .close
   else if t == "xi" then some .abortIdle
+  else if t == "di" then some .dupIdle
   else
     let letters := (t.takeWhile Char.isAlpha).toString
     let num := (t.dropWhile Char.isAlpha).toString
@@ -743,13 +854,16 @@ def opOfStr (t : String) : Option Op :=
       | "r" => some (.reply e)
       | "rs" => some (.replySplit e)     -- a reply delivered in several segments
       | "rb" => some (.replyBad e)
+      | "rr" => some (.replyTwice e)
+      | "du" => some (.dupTo e)
       | "rp" => some (.replyPartialAbort e)
       | "x" => some (.abort e)
       | _ => none
 
 def opExch : Op → Nat
   | .start e | .startCancelled e | .cancel e | .dialOk e | .dialErr e | .write e
-  | .reply e | .replySplit e | .replyBad e | .replyPartialAbort e | .abort e => e + 1
+  | .reply e | .replySplit e | .replyBad e | .replyPartialAbort e | .abort e
+  | .replyTwice e | .dupTo e => e + 1
   | _ => 0
 
 /-- index of the first event at which the monitor turns false -/
@@ -757,7 +871,7 @@ def firstBad (m : Mon) (i : Nat) : List Event → Option (Nat × Event)
   | [] => none
   | ev :: rest =>
     let m' := monStep m ev
-    if m'.ok then firstBad m' (i + 1) rest else some (i, ev)
+    if m'.ok && m'.own then firstBad m' (i + 1) rest else some (i, ev)
 
 /-- case: space separated ops; impl output: `h=<events>` -/
 def run (case impl : String) : String × String :=
